@@ -936,3 +936,73 @@ Proof.
       * rewrite U2 in Ho. apply in_map_iff in Ho as [o1 [<- Ho1]]. cbn [gpath gobj_of] in Hp'. rewrite (Hos1 o1 Ho1) in Hp'. discriminate.
       * cbn [gpath gobj_of opath set_prim]. exact Kn.
 Qed.
+
+(* ================================================================ first spelling wins *)
+
+Theorem first_spelling_wins p n pv st b :
+  run_state p = Ok st -> find_obj [fold_name n] (objs st) = None -> pv <> PNull ->
+  run (p ++ [DObj (0, [n]) pv None]) = RBoard b ->
+  exists o, gfind [fold_name n] (gobjs b) = Some o /\ gpath o = [n].
+Proof.
+  intros Hp Hn Hpv H. apply run_board in H as [st' [Hs ->]].
+  rewrite run_state_snoc, Hp, exec_obj_top in Hs by discriminate. cbn zeta in Hs.
+  assert (fst (ensure [] [] [n] (objs st)) = objs st ++ [mkObj [n] None [] [[]]]) as Ee.
+  { simpl. change (fkey [n]) with [fold_name n]. rewrite Hn. reflexivity. }
+  rewrite Ee in Hs.
+  assert (forall f, (forall o, opath (f o) = opath o) ->
+            gfind [fold_name n] (map gobj_of (upd_obj [fold_name n] f (objs st ++ [mkObj [n] None [] [[]]])))
+            = Some (gobj_of (f (mkObj [n] None [] [[]])))) as Hf.
+  { intros f Hfp. rewrite gfind_map, find_after_upd by exact Hfp.
+    unfold find_obj. rewrite find_app'. fold (find_obj [fold_name n] (objs st)). rewrite Hn.
+    simpl. unfold at_key. simpl. rewrite path_eqb_refl. reflexivity. }
+  destruct pv as [| |v]; [|contradiction|]; inversion Hs; subst; clear Hs; unfold to_board; cbn [gobjs objs].
+  - exists (gobj_of (mkObj [n] None [] [[]])). split; [|reflexivity].
+    rewrite gfind_map. unfold find_obj. rewrite find_app'. fold (find_obj [fold_name n] (objs st)). rewrite Hn.
+    simpl. unfold at_key. simpl. rewrite path_eqb_refl. reflexivity.
+  - exists (gobj_of (set_prim v (mkObj [n] None [] [[]]))). split; [|reflexivity].
+    change (fkey [n]) with [fold_name n]. apply Hf. apply set_prim_path.
+Qed.
+
+(* ================================================================ refutations (witnesses replayed on d2) *)
+
+Definition n_a : name := [97]%N.  Definition n_b : name := [98]%N.
+Definition n_x : name := [120]%N. Definition n_y : name := [121]%N.
+Definition s_red : str := [114;101;100]%N. Definition s_lbl : str := [108;98;108]%N.
+
+(* a.label: y ;; a: x   — the label stays y *)
+Lemma primary_shadowed_refuted :
+  exists p ns v b o,
+    run (p ++ [DObj (0, ns) (PStr v) None]) = RBoard b /\ gfind (fkey ns) (gobjs b) = Some o /\ glabel o <> v.
+Proof.
+  exists [DAttr (0, [n_a]) KLabel (Some n_y)], [n_a], n_x. eexists. eexists.
+  split; [vm_compute; reflexivity|]. split; [vm_compute; reflexivity|]. vm_compute. discriminate.
+Qed.
+
+(* a: { _.x } ;; a: null   — a comes back as an object without any reference *)
+Lemma null_object_ghost_refuted :
+  exists p ns b o,
+    run (p ++ [DObj (0, ns) PNull None]) = RBoard b /\ In o (gghosts b) /\ is_prefix (fkey ns) (fkey (gpath o)) = true.
+Proof.
+  exists [DObj (0, [n_a]) PNone (Some [DObj (1, [n_x]) PNone None])], [n_a]. eexists. eexists.
+  split; [vm_compute; reflexivity|]. split; [left; reflexivity | vm_compute; reflexivity].
+Qed.
+
+(* a: { b -> _.x } ;; a: null   — the connection a.b -> x survives *)
+Lemma null_object_edge_refuted :
+  exists p ns b e,
+    run (p ++ [DObj (0, ns) PNull None]) = RBoard b /\ In e (gedges b) /\ is_prefix (fkey ns) (fkey (gsrc e)) = true.
+Proof.
+  exists [DObj (0, [n_a]) PNone (Some [DEdge (0, [n_b]) (1, [n_x]) false true None PNone None])], [n_a]. eexists. eexists.
+  split; [vm_compute; reflexivity|]. split; [left; reflexivity | vm_compute; reflexivity].
+Qed.
+
+(* x -> y ;; (x -> y)[0].style.stroke: red ;; (x -> y)[0].style.stroke: null   — the connection is gone *)
+Lemma null_edge_attr_refuted :
+  exists p s t i k b b',
+    run p = RBoard b /\ length (gedges b) = 1 /\
+    run (p ++ [DEdgeAttr (0, s) (0, t) false true i k None]) = RBoard b' /\ gedges b' = [].
+Proof.
+  exists [DEdge (0, [n_x]) (0, [n_y]) false true None PNone None; DEdgeAttr (0, [n_x]) (0, [n_y]) false true 0 KStroke (Some s_red)],
+         [n_x], [n_y], 0, KStroke. eexists. eexists.
+  split; [vm_compute; reflexivity|]. split; [reflexivity|]. split; [vm_compute; reflexivity | reflexivity].
+Qed.
